@@ -45,7 +45,15 @@ pub fn corpus_sized(seed: u64, thorough: bool, tiny: bool) -> Vec<Case> {
             cfg.padding = crate::api::Pad::None;
             cfg.seek = crate::api::SeekPol::Off;
             let frames = cfg.block_size as usize + rng.usize(0, 9);
-            let signal = *rng.pick(&[flacref::pcm::Signal::QuietPeriodic, flacref::pcm::Signal::QuietTonal, flacref::pcm::Signal::SmoothRandomWalk, flacref::pcm::Signal::StereoAnti]);
+            let mut signal = *rng.pick(&[flacref::pcm::Signal::QuietPeriodic, flacref::pcm::Signal::QuietTonal, flacref::pcm::Signal::SmoothRandomWalk, flacref::pcm::Signal::StereoAnti]);
+            if i % 2 == 1 {
+                // material for which both candidates are tiny, so that the order in which the two
+                // parallel candidate tasks finish would show if it mattered
+                signal = *rng.pick(&[flacref::pcm::Signal::QuietPeriodic, flacref::pcm::Signal::QuietTonal]);
+                cfg.bps = 24;
+                cfg.block_size = 48;
+                cfg.max_lpc = Some(*rng.pick(&[4u8, 6, 8]));
+            }
             v.push(Case { cfg, front: *rng.pick(&FRONTS), recipe: PcmRecipe { signal, seed: rng.next(), frames } });
             continue;
         }
